@@ -8,6 +8,7 @@ import (
 	"fmt"
 	"io"
 	"math/big"
+	"os"
 	"os/exec"
 	"strings"
 	"time"
@@ -40,10 +41,20 @@ type Solver struct {
 	depth   int
 	log     io.Writer
 	timeout int
+	Stage2  int
+	HardTime time.Duration
+	stage1   int
+	seq      int
+	stack    [][]*Term
+	Restarts int
+	Slow     int
 }
 
 func NewSolver(ctx *Ctx, timeoutMs int) *Solver {
-	s := &Solver{ctx: ctx, timeout: timeoutMs}
+	s := &Solver{ctx: ctx, timeout: timeoutMs, stage1: 400}
+	if v := os.Getenv("GOSYM_STAGE1"); v != "" {
+		fmt.Sscanf(v, "%d", &s.stage1)
+	}
 	s.start()
 	return s
 }
@@ -61,7 +72,32 @@ func (s *Solver) start() {
 	s.out = bufio.NewReaderSize(r, 1<<16)
 	s.send("(set-option :global-declarations true)")
 	s.send("(set-option :produce-models true)")
-	s.send(fmt.Sprintf("(set-option :timeout %d)", s.timeout))
+}
+
+// restart replaces the solver process (after a timeout the incremental core of
+// z3 4.8.12 has been observed to answer unsat wrongly) and replays the stack.
+func (s *Solver) restart() {
+	s.Restarts++
+	if s.cmd != nil {
+		s.inRaw.Close()
+		s.cmd.Process.Kill()
+		s.cmd.Wait()
+		s.cmd = nil
+	}
+	for _, t := range s.ctx.tab {
+		t.def = false
+	}
+	s.declV, s.declF = 0, 0
+	s.start()
+	for i, lvl := range s.stack {
+		if i > 0 || s.depth == len(s.stack) {
+			s.send("(push 1)")
+		}
+		for _, t := range lvl {
+			s.define(t)
+			s.send("(assert " + t.ref() + ")")
+		}
+	}
 }
 
 func (s *Solver) Close() {
@@ -135,8 +171,16 @@ func (s *Solver) declare() {
 	}
 }
 
-func (s *Solver) Push() { s.send("(push 1)"); s.depth++ }
-func (s *Solver) Pop()  { s.send("(pop 1)"); s.depth-- }
+func (s *Solver) Push() {
+	s.send("(push 1)")
+	s.depth++
+	s.stack = append(s.stack, nil)
+}
+func (s *Solver) Pop() {
+	s.send("(pop 1)")
+	s.depth--
+	s.stack = s.stack[:len(s.stack)-1]
+}
 
 func (s *Solver) Assert(t *Term) {
 	if t.IsTrue() {
@@ -144,6 +188,18 @@ func (s *Solver) Assert(t *Term) {
 	}
 	s.define(t)
 	s.send("(assert " + t.ref() + ")")
+	if len(s.stack) == 0 {
+		s.stack = append(s.stack, nil)
+	}
+	s.stack[len(s.stack)-1] = append(s.stack[len(s.stack)-1], t)
+}
+
+func (s *Solver) allAsserts() []*Term {
+	var out []*Term
+	for _, l := range s.stack {
+		out = append(out, l...)
+	}
+	return out
 }
 
 func (s *Solver) readLine() string {
@@ -151,44 +207,123 @@ func (s *Solver) readLine() string {
 	line, err := s.out.ReadString('\n')
 	if err != nil {
 		s.Errors = append(s.Errors, "solver died: "+err.Error())
-		return "unknown"
+		return fmt.Sprintf("<<%d>>", s.seq)
 	}
 	return strings.TrimSpace(line)
 }
 
+// CheckHard is for assertion queries: bit-blasting tactic first.
+func (s *Solver) CheckHard() SatResult {
+	if s.ctx.hasInt || true {
+		return s.Check()
+	}
+	t0 := time.Now()
+	s.Queries++
+	s.send(fmt.Sprintf("(set-option :timeout %d)", s.timeout))
+	s.send("(check-sat-using (or-else qfaufbv smt))")
+	r := s.readResult()
+	switch r {
+	case Sat:
+		s.NSat++
+	case Unsat:
+		s.NUnsat++
+	default:
+		s.NUnk++
+	}
+	s.HardTime += time.Since(t0)
+	s.Time += time.Since(t0)
+	return r
+}
+
 func (s *Solver) Check() SatResult {
 	t0 := time.Now()
-	s.send("(check-sat)")
 	s.Queries++
-	var r SatResult
+	// stage 1: incremental core with a short timeout; stage 2: bit-blasting
+	// tactic on the whole assertion stack (much stronger on BV arithmetic).
+	quick := s.timeout
+	if quick > s.stage1 {
+		quick = s.stage1
+	}
+	s.send(fmt.Sprintf("(set-option :timeout %d)", quick))
+	s.send("(check-sat)")
+	r := s.readResult()
+	if r == Unknown {
+		s.Stage2++
+		s.restart()
+		s.send(fmt.Sprintf("(set-option :timeout %d)", s.timeout))
+		if s.ctx.hasInt {
+			s.send("(check-sat)")
+		} else {
+			s.send("(check-sat-using (or-else qfaufbv smt))")
+		}
+		r = s.readResult()
+		if d := os.Getenv("GOSYM_DUMP2"); d != "" {
+			os.MkdirAll(d, 0o755)
+			os.WriteFile(fmt.Sprintf("%s/q-%d-%d-%s.smt2", d, os.Getpid(), s.seq, r), []byte(s.ctx.Script(s.allAsserts())), 0o644)
+		}
+	}
+	if r == Unknown {
+		s.restart()
+	}
+	// no timeout outside check-sat: a timeout firing inside push/assert
+	// ("push canceled") would desynchronise the assertion stack
+	s.send("(set-option :timeout 4294967295)")
+	switch r {
+	case Sat:
+		s.NSat++
+	case Unsat:
+		s.NUnsat++
+	default:
+		s.NUnk++
+	}
+	s.Time += time.Since(t0)
+	return r
+}
+
+func (s *Solver) readResult() SatResult {
+	// synchronise on an echo marker so that stray output can never shift answers
+	s.seq++
+	marker := fmt.Sprintf("<<%d>>", s.seq)
+	s.send("(echo \"" + marker + "\")")
+	res := Unknown
+	got := 0
 	for {
 		line := s.readLine()
+		if line == marker || line == "\""+marker+"\"" {
+			break
+		}
 		if strings.HasPrefix(line, "(error") {
 			s.Errors = append(s.Errors, line)
 			continue
 		}
 		switch line {
 		case "sat":
-			r = Sat
-			s.NSat++
+			res = Sat
+			got++
 		case "unsat":
-			r = Unsat
-			s.NUnsat++
+			res = Unsat
+			got++
 		case "unknown", "timeout":
-			r = Unknown
-			s.NUnk++
+			res = Unknown
+			got++
+		case "":
 		default:
-			if line == "" {
-				continue
+			if strings.HasPrefix(line, "unknown") {
+				res = Unknown
+				got++
+				break
 			}
 			s.Errors = append(s.Errors, "unexpected solver output: "+line)
-			r = Unknown
-			s.NUnk++
+			if strings.Contains(line, "solver died") {
+				return Unknown
+			}
 		}
-		break
 	}
-	s.Time += time.Since(t0)
-	return r
+	if got != 1 {
+		s.Errors = append(s.Errors, fmt.Sprintf("solver gave %d answers to one check", got))
+		return Unknown
+	}
+	return res
 }
 
 // CheckWith checks satisfiability of current assertions plus extra.
